@@ -130,6 +130,70 @@ def r20_8(ctx):
               "and a failing one no longer yields exit 50")
 
 
+def _detached_tests(prog, body):
+    """bool switches of `body` whose condition compares an exit status with ExitStatus::Detached -> [(switch block, (true, false), is_eq)]"""
+    from ..cfgq import promoted_tree
+    o = Origins(body)
+    out = []
+    for sb, st in switches(body):
+        be = bool_edges(body, sb)
+        if be is None:
+            continue
+        tree = cond_tree(body, sb, o)
+        neg = False
+        while tree.kind == "un" and tree.a == "Not":
+            neg, tree = not neg, tree.kids[0]
+        if tree.kind == "call" and method_name(tree.a) in ("PartialEq::eq", "PartialEq::ne"):
+            shown = tree.show()
+            for x in tree.walk():
+                if x.kind == "const":
+                    pt = promoted_tree(prog, body, x.a)
+                    if pt is not None:
+                        shown += pt.show()
+            if "Detached" in shown:
+                is_eq = (method_name(tree.a) == "PartialEq::eq") != neg
+                out.append((sb, be, is_eq))
+    return out
+
+
+def r20_11(ctx):
+    """F51: a detached execution has no result - its placeholder output is never validated. Every TestCase::validate in the test command is reached only for
+    outputs that are not Detached: in the body behind the `!= Detached` edge, in a `map` closure behind a `filter` whose closure tests for Detached"""
+    prog = ctx.prog
+    run = _run(prog)
+    o = Origins(run)
+    n = 0
+    for body in [run] + prog.closures_of(run):
+        sites = [bb for bb, t in body.calls() if (callee_name(t) or "").endswith("TestCase::validate")]
+        if not sites:
+            continue
+        for bb in sites:
+            n += 1
+            ok = False
+            for sb, (tt, tf), is_eq in _detached_tests(prog, body):
+                ne_edge = tf if is_eq else tt
+                if bb in body.reachable(ne_edge) and bb not in body.reachable(0, removed_edges=[(sb, ne_edge)]):
+                    ok = True
+            if not ok and body is not run:
+                # the closure is the argument of a map() whose receiver passed a filter() that tests for Detached
+                for cb_, ct in run.calls():
+                    if mname(ct) in ("Iterator::map", "Iterator::for_each", "Iterator::filter_map") and any(
+                            x.kind == "agg" and isinstance(x.a, tuple) and str(x.a[0]) == "closure " + body.path for x in o.operand(ct["args"][1]).walk()):
+                        recv = o.operand(ct["args"][0])
+                        for x in recv.walk():
+                            if x.kind == "call" and method_name(x.a) == "Iterator::filter" and len(x.kids) == 2:
+                                fc = peel(x.kids[1])
+                                if fc.kind == "agg" and isinstance(fc.a, tuple) and str(fc.a[0]).startswith("closure "):
+                                    fb = prog.body_by_def(fc.a[0][len("closure "):], run.crate)
+                                    if fb is not None and _detached_tests(prog, fb):
+                                        ok = True
+            ctx.check(ok, "validate-not-detached:%s#%d" % (body.npath.split("::")[-1], n), body.loc(bb), "validate is reached only for outputs that are not Detached",
+                      "validate is also called for the placeholder output of a detached execution: when a later test case of the document times out, the detached one is "
+                      "reported - as succeeded (no expectations) or as failed with malformed output - although it was never waited for")
+    if n < 2:
+        ctx.bad("validate-sites", run.where(), "only %d TestCase::validate call(s) found in the test command (2 confirmed by reading)" % n)
+
+
 def _segment_events(f, start, stops, events, cap=3):
     """event-count tuples (each count capped at `cap`) possible on paths from `start` to a stop
     block / return, computed as a forward dataflow over the region with back edges removed (a DAG),
@@ -582,3 +646,4 @@ def run(ctx):
     from . import c16
     ctx.run_rule("R20.10", "prepend / append of front-matter and command line accumulate (own and inherited list, documented order): no list replaces the other (shared with C16 R16.1) [E-FLOW]",
                  lambda c: c16._merge_fields(c, c.prog.fn("DocumentConfig::with_defaults_from"), "DocumentConfig", only={"append", "prepend"}), floor=2)
+    ctx.run_rule("R20.11", "a detached execution is never validated: every TestCase::validate in the test command sits behind a `!= Detached` test (body) or a filter on Detached (iterator chain) (F51) [E-PATH]", r20_11, floor=2)
